@@ -38,6 +38,16 @@ class Hook:
         return params
 
 
+class Extruder:
+    """An application object whose *method* is registered as a hook: every attribute access yields a new, equal bound method."""
+
+    def __init__(self, log):
+        self.inner = Hook("meth", log, add={"P": 3})
+
+    def on_move(self, origin, target, params, state):
+        return self.inner(origin, target, params, state)
+
+
 class C20System(BuilderSystem):
     deep = True
 
@@ -66,10 +76,12 @@ class C20System(BuilderSystem):
             "ext1": Hook("ext1", st.log, inner=extrusion_hook(*GEOM["ext1"])),
             "ext2": Hook("ext2", st.log, inner=extrusion_hook(*GEOM["ext2"])),
         }
+        st.extruder = Extruder(st.log)
         st.registered = []
         st.ctx_hooks = []
         st.e_mode = "absolute"
         st.e_last = 0.0
+        st.e_exact = 0.0          # exact running total since the last E reset (None: not determined any more)
         if not getattr(self, "unknown_start", False):
             st.machine.feed_words([("G", "92"), ("X", "1"), ("Y", "2"), ("Z", "0"), ("E", "0")])
 
@@ -82,7 +94,7 @@ class C20System(BuilderSystem):
                 return [dx, dy] if dz is None else [dx, dy, dz]
             return [p.x + dx, p.y + dy] if dz is None else [p.x + dx, p.y + dy, p.z + dz]
         ops = []
-        for h in ("rec", "addF", "ext1", "ext2", "addQ", "onlyF"):
+        for h in getattr(self, "hook_names", ("rec", "addF", "ext1", "ext2", "addQ", "onlyF", "meth")):
             ops.append(["add_hook", [h]])
             ops.append(["remove_hook", [h]])
         ops += [["move", [], {"x": 3.0}], ["move", [], {"x": 1.0, "y": -1.0, "z": 0.5}], ["move", [], {"y": 2.5, "F": 900}],
@@ -113,7 +125,7 @@ class C20System(BuilderSystem):
         del st.log[:]
         # --- model of the registry
         if name in ("add_hook", "remove_hook"):
-            h = st.hooks[op[1][0]]
+            h = st.extruder.on_move if op[1][0] == "meth" else st.hooks[op[1][0]]      # a fresh bound method object every time
             getattr(g, name)(h)
             st.last_exc, st.last_rejected, st.last_lines = None, False, []
             hn = op[1][0]
@@ -150,6 +162,7 @@ class C20System(BuilderSystem):
             return problems
         if name == "set_extrusion_mode":
             st.e_mode = op[1][0]
+            st.e_exact = None     # the total is only followed between an E reset and the next mode switch
         # walk the emitted lines
         unit = 0.5e-5
         log = list(st.log)
@@ -160,6 +173,7 @@ class C20System(BuilderSystem):
             if kind == "G92":
                 if "E" in info["others"]:
                     st.e_last = info["others"]["E"]
+                    st.e_exact = float(op[2]["E"]) if (len(op) > 2 and "E" in op[2]) else None      # the exact value the caller reset E to
                 continue
             if kind not in ("G0", "G1"):
                 continue
@@ -172,6 +186,7 @@ class C20System(BuilderSystem):
                     st.e_last = info["others"]["E"]
                 continue
             budget = (max(m.rel_steps.values()) + 2) * unit + 1e-9
+            followed = False
             calls = log[li: li + len(st.registered)]
             li += len(st.registered)
             names = [c[0] for c in calls]
@@ -218,11 +233,24 @@ class C20System(BuilderSystem):
                 want = amount if st.e_mode == "relative" else st.e_last + amount
                 # absolute mode: the builder adds to its exact running total, the check to the previous *emitted* (rounded) total
                 tolE = (2 if st.e_mode == 'absolute' else 1) * unit * 1.001 + k_of(ext[0]) * 4 * budget + 1e-9
+                # running total since the last E reset, from the exact origin/target the hook itself was handed: the emitted total
+                # is that sum rounded once, however many moves went into it (rounding the remembered total would accumulate)
+                if st.e_mode == "absolute" and getattr(st, "e_exact", None) is not None:
+                    hc = next((c for c in calls if c[0] == ext[0]), None)
+                    if hc is not None and not any(v is None for v in tuple(hc[1]) + tuple(hc[2])):
+                        st.e_exact += k_of(ext[0]) * math.hypot(float(hc[2][0]) - float(hc[1][0]), float(hc[2][1]) - float(hc[1][1]))
+                        followed = True
+                        if abs(info["others"]["E"] - st.e_exact) > unit * 1.001 + 1e-9:
+                            problems.append(("extrusion-total-drifts", f"{op}: line {block!r}: E{info['others']['E']} but the exact running total since the last E reset is {st.e_exact!r}"))
+                    else:
+                        st.e_exact = None
                 if abs(info["others"]["E"] - want) > tolE:
                     problems.append((f"extrusion-amount-wrong-{st.e_mode}", f"{op}: line {block!r}: E{info['others']['E']} but {k_of(ext[0]):.6f} x XY length {length:.6f} "
                                      f"{'+ previous total ' + repr(st.e_last) if st.e_mode == 'absolute' else ''} = {want:.6f}"))
             if "E" in info["others"]:
                 st.e_last = info["others"]["E"]
+                if not followed:
+                    st.e_exact = None         # an E word this check did not account for: the total is not followed any further
         if not problems and li != len(log):
             problems.append(("extra-hook-calls", f"{op}: {len(log)} hook calls for {li} expected (lines {st.last_lines}, registered {st.registered})"))
         # remembered parameters
@@ -259,8 +287,14 @@ ASSUMPTIONS = ["no transform active", "extrusion clause checked when exactly one
 def systems(tier):
     unknown = C20System()
     unknown.unknown_start = True
-    return [("hooks", C20System(), 4 if tier == "quick" else 5, None),
-            ("hooks-unknown-position", unknown, 3 if tier == "quick" else 4, None)]
+    unknown.hook_names = ("rec", "ext1", "addQ", "meth")
+    a, b = C20System(), C20System()
+    a.hook_names = ("rec", "addF", "ext1", "ext2")                 # in-place hooks and the bundled extrusion hook
+    b.hook_names = ("ext1", "addQ", "onlyF", "meth")               # hooks returning new mappings, a filter, a bound method
+    if tier == "quick":
+        return [("hooks", a, 4, None), ("hooks-new-mappings", b, 3, None), ("hooks-unknown-position", unknown, 3, None)]
+    return [("hooks", a, 5, None), ("hooks-new-mappings", b, 5, None), ("hooks-all", C20System(), 4, None),
+            ("hooks-unknown-position", unknown, 4, None)]
 
 
 def run(tier, seed):
